@@ -173,12 +173,15 @@ Implied ==
        /\ IF Ev.nxt = "some"
           THEN LET y == Nat8(Ev.nx) IN Lt(it.last, y) /\ CLen(it.c, Dec1(y)) = it.lastlen /\ CLen(it.c, y) > ImpliedMaxLen
           ELSE Ev.nxt = "none" /\ (Lt(it.last, Half64) => CLen(it.c, Half64) = it.lastlen)
-       /\ Len(Ev.probs) = n - 1
+       \* one probability per bracket; the code leaves the last bracket out (a TODO in the source): both accepted
+       /\ Len(Ev.probs) \in {n - 1, n}
        /\ \A i \in 1..(n - 1) : ProbOK(pts[i], pts[i + 1], Ev.probs[i])
-       \* sampling: possible iff there is at least one bracket; every sample lies in one
-       /\ IF n = 1 THEN Ev.sres = "panic"
-          ELSE /\ Ev.sres = "ok" /\ Len(Ev.samples) = Ev.nsamples
-               /\ \A j \in 1..Len(Ev.samples) : Lt(Nat8(Ev.samples[j]), pts[n][1])
+       \* sampling: must work when there are two brackets or more (with one, the code as it is panics:
+       \* accepted, not required); every sample is a value whose codeword is at most 128 bits long
+       /\ n > 1 => Ev.sres = "ok"
+       /\ Ev.sres = "ok" =>
+             /\ Len(Ev.samples) = Ev.nsamples
+             /\ \A j \in 1..Len(Ev.samples) : CLen(it.c, Nat8(Ev.samples[j])) <= ImpliedMaxLen
 
 Next == Implied \/ Reset \/ ZZ \/ ZZSweep \/ VBWrite \/ VBRead \/ LenSteps \/ CPNew \/ CPNext \/ CPKraft
 Spec == Init /\ [][Next]_vars
